@@ -11,6 +11,9 @@
        recorded step-boundary state, continue to the reference end state, and the trajectory must not change
    (c) hunt for the refuted clause (synchronize outside the mutex -> torn snapshot)            [known finding when it hits]
    (e) save/load of simulation B while simulation A's server thread handles requests (descriptor double close) [known finding when it hits]
+   (j) per integrator type: 4 simulations of that type at the same time in 4 threads vs sequentially (same-code-path overlap)
+   (i) co-residency, one class per kind of process-global state (libc rng, static caches): B alone in a fresh process vs after / next to
+       other simulations vs served + continued
    (h) keyboard requests (pause / single step / 50 steps / resume) + pulls vs run without a server, WHFast/MERCURIUS/SABA safe_mode=0, IAS15
    (f) a heartbeat that also writes in the prologue call; (g) sim.steps(n) next to a serving simulation   [known findings]
    (d) -DAVX512 build: two WHFast512 simulations alternated in one thread vs separate (fixed by /repo 85499fd: regression guard)
@@ -198,13 +201,55 @@ def run(ctx):
     if ps["spec"]["integrator"] == "ias15":
         ps["sleep_ms"] = 0.3
     jobs.append(("steps-api", libdir, "steps", ps, 240))
+    # per-simulation determinism under co-residency, one scenario per class of process-global state the statics translator knows:
+    #   rng          (rand/srand/random...: order-sensitive hard-sphere collisions, shuffled with the simulation's own rand_seed)
+    #   static-cache (values cached in objects with static storage on first use: other simulations with different G / softening / dt)
+    # each plan (solo / after others / next to others in threads / served + continued snapshot) runs in a FRESH process
+    cores = []
+    bq = {"kind": "collide", "n": ctx.rng.randint(30, 45), "seed": ctx.rng.randint(1, 10 ** 6), "tmax": 1.0,
+          "collision": "direct", "gravity": ctx.rng.choice(["none", "basic"])}
+    oq = [{"kind": "collide", "n": ctx.rng.randint(20, 35), "seed": ctx.rng.randint(1, 10 ** 6), "tmax": 0.5} for _ in range(2)]
+    cores.append(("rng", bq, oq))
+    for integ in (INTEGRATORS[:-1] if ctx.thorough else [ctx.rng.choice(INTEGRATORS[:-1])]):
+        def orb(i, G):
+            return {"integrator": i, "n": ctx.rng.randint(2, 4), "seed": ctx.rng.randint(1, 10 ** 6), "dt": ctx.rng.choice([0.01, 0.02]), "G": G,
+                    "softening": ctx.rng.choice([0.0, 1e-3]), "safe_mode": ctx.rng.choice([0, 1]), "tmax": 6.0 if i in ("ias15", "bs", "mercurius", "trace") else 20.0}
+        cores.append(("static-cache:" + integ, orb(integ, ctx.rng.choice([0.5, 2.0])), [orb(ctx.rng.choice(INTEGRATORS[:-1]), 1.0), orb(integ, 1.0)]))
+    for cls, bspec, others in cores:
+        for plan in ("solo", "after", "thread", "served"):
+            jobs.append(("coresident:%s:%s" % (cls, plan), libdir, "coresident",
+                         {"plan": plan, "b": bspec, "others": others, "seed": ctx.rng.randint(1, 10 ** 6), "usleep_us": 300 if cls == "rng" else 100}, 240))
     # keyboard commands (pause, single step, 50 steps, resume) + pulls must not change any bit of the trajectory
+    try:
+        kk = json.load(open(os.path.join(vlib.BUILD, "c19", "lockproto.json"))).get("keyboard_keys", [])
+    except Exception:
+        kk = []
+    try:    # independent of the translator (which may have failed closed): every literal the handler text compares `key` with
+        txt = open(os.path.join(vlib.REPO, "src", "server.c")).read()
+        i0 = txt.index('"/keyboard/"'); txt = txt[i0:txt.index('"/screenshot"', i0)] if '"/screenshot"' in txt[i0:] else txt[i0:i0 + 6000]
+        for m_ in re.finditer(r"(?:case\s+|key\s*==\s*)(?:'(.)'|(\d+))", txt):
+            kk.append(ord(m_.group(1)) if m_.group(1) else int(m_.group(2)))
+    except Exception:
+        pass
+    kk = sorted(set(kk))
+    # every key the handler has a case for, except quit ('Q'), pause/step keys (sent in their own sequence); plus two keys it does not know
+    other_keys = [k for k in kk if k not in (81, 32, 264, 267)] + [ctx.rng.randint(65, 90), ctx.rng.randint(300, 400)]
+    other_keys = [k for k in other_keys if k != 81]
     for integ, extra, us, tm in (("whfast", {"safe_mode": 0, "corrector": ctx.rng.choice([0, 11])}, 200, 30.0), ("mercurius", {"safe_mode": 0}, 300, 25.0),
                                  ("saba", {"safe_mode": 0}, 200, 30.0), ("ias15", {}, 4000, 40.0)):
         pk = {"seed": ctx.rng.randint(1, 10 ** 6), "spec": dict({"integrator": integ, "n": ctx.rng.randint(2, 4), "seed": ctx.rng.randint(1, 10 ** 6),
               "dt": 0.01}, **extra), "tmax": tm, "usleep_us": us, "pause_at": round(ctx.rng.uniform(0.15, 0.5), 3),
-              "pulls_before": ctx.rng.randint(0, 3), "pulls_after": ctx.rng.randint(0, 3), "page_down": True}
+              "pulls_before": ctx.rng.randint(0, 3), "pulls_after": ctx.rng.randint(0, 3), "page_down": True, "other_keys": other_keys}
         jobs.append(("keyboard:" + integ, libdir, "keyboard", pk, 240))
+    groups = []
+    for integ in INTEGRATORS:
+        cost = {"ias15": 40.0, "bs": 15.0, "mercurius": 60.0, "trace": 60.0, "janus": 150.0, "saba": 150.0, "eos": 120.0}.get(integ, 300.0)
+        specs = [{"integrator": integ, "n": ctx.rng.randint(2, 5) if integ != "sei" else ctx.rng.randint(5, 20), "seed": ctx.rng.randint(1, 10 ** 6), "dt": 0.01,
+                  "safe_mode": 1, "corrector": ctx.rng.choice([0, 3]), "tmax": round(cost * ctx.rng.uniform(0.8, 1.2), 2)} for _ in range(4)]
+        groups.append({"name": integ, "specs": specs, "rounds": ctx.scale(2, 6)})
+    jobs.append(("hammer", libdir, "hammer", {"groups": groups}, 400))
+    jobs.append(("teardown", libdir, "teardown", {"seed": ctx.rng.randint(1, 10 ** 6), "spec": {"integrator": "whfast", "n": 3, "seed": ctx.rng.randint(1, 10 ** 6),
+                 "dt": 0.01}, "tmax": 2.0, "iterations": ctx.scale(12, 60), "clients": 3}, 300))
     jobs.append(("fdclose", libdir, "fdclose", {"seed": ctx.rng.randint(1, 10 ** 6), "N": 3000, "clients": 3, "seconds": ctx.scale(4, 12)}, 200))
     if libavx:
         pw = {"seed": ctx.rng.randint(1, 10 ** 6), "steps": ctx.rng.randint(10, 40),
@@ -212,7 +257,7 @@ def run(ctx):
         jobs.append(("w512:mass", libavx, "w512", pw, 120))
         pw2 = dict(pw, a=[1.0, 1], b=[1.0, 0], seed=pw["seed"] + 1, thread_steps=0)
         jobs.append(("w512:gr", libavx, "w512", pw2, 120))
-    with ThreadPoolExecutor(max_workers=int(os.environ.get("VERIF_C19_PAR", "4"))) as ex:
+    with ThreadPoolExecutor(max_workers=int(os.environ.get("VERIF_C19_PAR", "6"))) as ex:
         def run_job(j):
             res, diag = drive(j[1], j[2], j[3], j[4])
             if j[2] == "keyboard" and res is not None and not res.get("conclusive"):
@@ -239,12 +284,41 @@ def run(ctx):
             ctx.violation("order-dependent:" + sp["integrator"], {"mode": "conc", "variant": "default", "params": pc, "also_reversed_order": True,
                           "spec": sp, "forward": a[diff[0]], "reversed": b.get(diff[0])}, True,
                           "the final bits of a simulation depend on which other simulations ran earlier in the same process")
+    # ---- co-residency: compare the plans of each class with the solo run
+    core_res = {}
+    for (name, lib, mode, params, _), (res, diag) in results:
+        if mode == "coresident" and res is not None:
+            core_res.setdefault(name.rsplit(":", 1)[0], {})[params["plan"]] = (res, params)
+    for cls, plans in sorted(core_res.items()):
+        if "solo" not in plans:
+            continue
+        solo = plans["solo"][0]
+        bad = []
+        for plan in ("after", "thread", "served"):
+            if plan not in plans:
+                continue
+            r_, p_ = plans[plan]
+            ctx.evaluations += 1
+            ctx.case(key=(cls, plan))
+            if r_["b"] != solo["b"] or r_["b_particles"] != solo["b_particles"]:
+                bad.append((plan, "final state of B differs from B alone in a fresh process", p_))
+            if plan == "served" and solo.get("restart_is_bitexact") and r_.get("b_continued_particles") not in (None, solo["b_particles"]):
+                bad.append((plan, "snapshot of B served at t=%s and continued differs from B alone" % r_.get("snapshot_t"), p_))
+        ctx.obligation("validation: %s — simulation B gives the same bits alone in a fresh process, after other simulations, next to other "
+                       "simulations in threads, and served + continued (%d plans)" % (cls, len(plans)), not bad, "; ".join("%s: %s" % (a, b) for a, b, _ in bad))
+        if bad:
+            ctx.violation("%s:%s" % (cls.split(":")[0] + ":" + cls.split(":")[1], bad[0][0]),
+                          {"mode": "coresident", "variant": "default", "params": bad[0][2], "compare_with_plan": "solo", "what": bad[0][1],
+                           "solo": solo, "all": {k: v[0] for k, v in plans.items()}}, True,
+                          "%s: %s" % (cls, bad[0][1]))
     for (name, lib, mode, params, _), (res, diag) in results:
         replay = {"mode": mode, "variant": "avx512" if lib == libavx and libavx else "default", "params": params}
         if res is None:
             # a crash / hang of the library under threads is itself a finding
             ctx.violation("crash-or-hang:" + name.split(":")[0], dict(replay, diagnostic=diag), True,
                           "child process running the %s scenario died or hung: %s" % (name, diag[:200]))
+            continue
+        if mode == "coresident":
             continue
         if mode == "conc":
             n = res["n"]
@@ -260,6 +334,24 @@ def run(ctx):
                 m = res["mismatch"][0]
                 ctx.violation("concurrent:" + m["spec"]["integrator"], dict(replay, first_mismatch=m), True,
                               "simulation run concurrently with others ends in different bits than when run alone")
+        elif mode == "hammer":
+            ctx.evaluations += res["runs"]
+            for g in params["groups"]:
+                ctx.case(key=("hammer", g["name"]))
+            ctx.obligation("validation(real threads): %d integrator types, 4 simulations of the same type at the same time in 4 threads == one after "
+                           "another (%d concurrent runs)" % (res["groups"], res["runs"]), not res["mismatch"], json.dumps(res["mismatch"][:1])[:800])
+            if res["mismatch"]:
+                m0 = res["mismatch"][0]
+                ctx.violation("concurrent-same-type:" + m0["group"], dict(replay, first_mismatch=m0), True,
+                              "simulations of the same integrator type running at the same time in different threads end in different bits than alone")
+        elif mode == "teardown":
+            ctx.evaluations += res["freed"] + res["restarted"]
+            ctx.case(key=("teardown", res["freed"] > 0))
+            ctx.extra["teardown"] = res
+            ctx.obligation("validation: %d simulations freed (%d servers restarted) under continuous client load without crash; a fresh simulation afterwards "
+                           "integrates to the reference bits" % (res["freed"], res["restarted"]), res["afterwards_equal"], json.dumps(res))
+            if not res["afterwards_equal"]:
+                ctx.violation("teardown:corrupts-later-simulation", dict(replay, result=res), True, "a simulation created after freeing served simulations gives different bits")
         elif mode == "keyboard":
             ctx.evaluations += 3
             ctx.case(key=(name, res["conclusive"]), sample={"scenario": "keyboard", "integrator": res["integrator"], "single_steps": res["single_steps"],
@@ -358,6 +450,10 @@ def run(ctx):
                     ctx.violation("whfast512:file-scope-statics", dict(replay, result=res), True,
                                   "two WHFast512 simulations with different stellar mass stepped CONCURRENTLY from two threads differ from the same "
                                   "simulations run separately (per-simulation constants in file-scope statics shared by all threads)")
+    kr = ctx.extra.get("keyboard_runs", [])
+    if kr:
+        ctx.obligation("validation: at least one keyboard scenario was conclusive (%d of %d)" % (len([k for k in kr if k.get("conclusive")]), len(kr)),
+                       any(k.get("conclusive") for k in kr), json.dumps(kr)[:600])
     ctx.obligation("validation(real threads): server scenarios actually served snapshots (%d)" % served_total, served_total > 0, "")
     ctx.extra["input_distribution"] = {"conc_simulations": len(pc["specs"]), "conc_rounds": pc["rounds"],
                                        "server_integrators": [j[0] for j in jobs if j[2] == "server"], "snapshots_served": served_total}
